@@ -25,7 +25,7 @@ RULE = ("messages generated from the RFC 7230 grammar (request|response x length
         "(1..17 cuts, byte-at-a-time included); distinct = distinct message bytes (distinct_nontrivial) and distinct "
         "(message, cut tuple) pairs (hit counter split_cases); non-trivial = the message has at least one header "
         "line and was parsed under at least one multi-piece split")
-RULE = __import__("vf.core", fromlist=["rule_add"]).rule_add(RULE, 'also a second request split over service passes through a live Valet on an in-memory net (Date blanked)')
+RULE = __import__("vf.core", fromlist=["rule_add"]).rule_add(RULE, 'also a second request split over service passes through a live Valet on an in-memory net (Date blanked); also the close of the connection noticed together with the last bytes of a complete response')
 META = {"engine": "E http", "technique": "differential: whole parse vs split parse vs generator content",
         "level_text": "exploration: splits are exhaustive (<=3 pieces) for each generated short message, random for "
                       "long ones; messages themselves are sampled from the grammar",
